@@ -247,4 +247,20 @@ func jsonDiscInfo(s *spec.Spec, pl *drv.JSONPayload) {
 	for _, ns := range s.Comp.Schemas {
 		walk(ns.Schema, 0)
 	}
+	for _, r := range s.Comp.Responses {
+		walk(r.Response.Schema, 0)
+	}
+	for _, b := range s.Comp.Bodies {
+		walk(b.Body.Schema, 0)
+	}
+	for _, pi := range s.Paths {
+		for _, o := range pi.Ops {
+			if o.Body != nil {
+				walk(o.Body.Schema, 0)
+			}
+			for _, r := range o.Responses {
+				walk(r.Schema, 0)
+			}
+		}
+	}
 }
